@@ -36,7 +36,7 @@ enum Field { F_RANDOM, F_CONST, F_SPIKE, F_ROWRAMP, F_COLRAMP, F_BILIN, F_CUBICP
 static const char* FIELD_NAME[] = {"random16", "constant", "spike", "row-ramp", "col-ramp", "bilinear-poly", "cubic-poly", "checker-0-65535", "smooth", "extremes"};
 
 struct Ras {
-  refgeoid::Raster r; int field = 0; std::string name;
+  refgeoid::Raster r; int field = 0; std::string name; bool stdhdr = true;
   std::vector<char> valid;                    // poly fields: pixel not clamped
   long long pc[4][4]; int i0 = 0, j0 = 0;     // poly fields: coefficients, centre
   std::string sizeclass() const { return r.w <= 4 ? "tiny" : r.w <= 16 ? "small" : r.w <= 72 ? "medium" : "large"; }
@@ -110,7 +110,8 @@ static Ras make_raster(Rng& g, bool quick, int force_field = -1) {
 static uint64_t g_filectr = 0;
 static void write_raster(Ras& R, Rng& g) {
   R.name = "c20_" + std::to_string(++g_filectr);
-  g_dir->write(R.r, R.name, g.coin(0.8) ? refgeoid::Header::standard() : refgeoid::Header::minimal());
+  R.stdhdr = g.coin(0.8);
+  g_dir->write(R.r, R.name, R.stdhdr ? refgeoid::Header::standard() : refgeoid::Header::minimal());
 }
 struct FileGuard { std::string name; ~FileGuard() { if (!name.empty()) g_dir->remove(name); } };
 
@@ -344,6 +345,8 @@ static void check_cache_law(Ctx& c, const Geoid& g, const Op& o, const Ras& R, b
   if (en <= wn) en += 360;
   const double slack = 1e-9;
   bool ok = N >= n - slack && S <= s + slack;
+  if (!(S >= -90 - slack && N <= 90 + slack && S <= N + slack && W >= -180 - slack && W < 180 + slack && E > W && E - W <= 360 + slack))
+    c.viol(std::string("law:C20/") + ip + "/cache-extent-accessors-out-of-range", "cache-law", J(w).f("West", W).f("East", E).f("North", N).f("South", S));
   if (!(E - W >= 360 - slack)) { double a = wn; while (a < W - slack) a += 360; while (a - 360 >= W - slack) a -= 360; ok = ok && a + (en - wn) <= E + slack; }
   c.event("cache-extent law checked");
   if (!ok) c.viol(std::string("law:C20/") + ip + "/cache-extent-does-not-cover-request", "cache-law", J(w).f("West", W).f("East", E).f("North", N).f("South", S));
@@ -431,14 +434,14 @@ static void judge_query(Ctx& c, const Geoid& ts, const refgeoid::Grid<LD>& RG, c
   if (q.kind != K_HEIGHT) {
     double want = q.kind == K_G2E ? q.hh + N : q.kind == K_E2G ? q.hh - N : q.hh + 0 * N;
     if (!same(want, result_of_kind))
-      c.viol(std::string("law:C20/") + ip + "/ConvertHeight-definition", q.mode, J(R.j()).f("lat", q.lat).f("lon", q.lon).str("h", hexd(q.hh)).i("kind", q.kind).str("N", hexd(N)).str("got", hexd(result_of_kind)).str("want", hexd(want)));
+      c.viol(std::string("law:C20/") + ip + "/ConvertHeight-definition", q.mode, J(R.j()).f("lat", q.lat).f("lon", q.lon).str("hgt", hexd(q.hh)).i("kind", q.kind).str("N", hexd(N)).str("got", hexd(result_of_kind)).str("want", hexd(want)));
     if (q.kind != K_NONE && std::isfinite(q.hh) && std::fabs(q.hh) < 1e300) {
       double h1 = ts.ConvertHeight(q.lat, q.lon, q.hh, Geoid::GEOIDTOELLIPSOID), H2 = ts.ConvertHeight(q.lat, q.lon, h1, Geoid::ELLIPSOIDTOGEOID);
       double e1 = ts.ConvertHeight(q.lat, q.lon, q.hh, Geoid::ELLIPSOIDTOGEOID), h2 = ts.ConvertHeight(q.lat, q.lon, e1, Geoid::GEOIDTOELLIPSOID);
       double m1 = std::max(std::max(std::fabs(q.hh), std::fabs(h1)), std::fabs(N)), m2 = std::max(std::max(std::fabs(q.hh), std::fabs(e1)), std::fabs(N));
       double r1 = std::fabs(H2 - q.hh) / ulp_of(m1), r2 = std::fabs(h2 - q.hh) / ulp_of(m2), rr = std::max(r1, r2);
       c.obs("ConvertHeight round trip [ulp of max(|h|,|H|,|N|)]", rr, J().f("h", q.hh).f("N", N));
-      if (!(rr <= 2)) c.viol(std::string("law:C20/") + ip + "/ConvertHeight-round-trip", q.mode, J(R.j()).f("lat", q.lat).f("lon", q.lon).str("h", hexd(q.hh)).str("N", hexd(N)).f("ulps", rr));
+      if (!(rr <= 2)) c.viol(std::string("law:C20/") + ip + "/ConvertHeight-round-trip", q.mode, J(R.j()).f("lat", q.lat).f("lon", q.lon).str("hgt", hexd(q.hh)).str("N", hexd(N)).f("ulps", rr));
     }
   }
 }
@@ -481,6 +484,13 @@ static void run_history_case(Ctx& c, uint64_t) {
     if (gA.Offset() != R.r.offset || gA.Scale() != R.r.scale || !same(gA.Offset(), R.r.offset))
       c.viol("format:C20/offset-scale-not-as-written", cls, J(R.j()).f("Offset", gA.Offset()).f("Scale", gA.Scale()));
     if (!gD.ThreadSafe() || gA.ThreadSafe()) c.viol("law:C20/ThreadSafe-flag", cls, R.j());
+    {   // header fields are reported as written (documented inspectors)
+      bool ok = R.stdhdr ? (gA.Description() == "synthetic raster written by /verif/oracle/ref_geoidfile.hpp" && gA.DateTime() == "2026-10-01 00:00:00" &&
+                            gA.MaxError() == (cubic ? 0.003 : 0.140) && gA.RMSError() == (cubic ? 0.001 : 0.005))
+                         : (gA.Description() == "NONE" && gA.DateTime() == "UNKNOWN" && gA.MaxError() == -1 && gA.RMSError() == -1);
+      ok = ok && gA.Interpolation() == (cubic ? "cubic" : "bilinear") && gA.GeoidName() == R.name && gA.GeoidDirectory() == dir && gA.GeoidFile() == dir + "/" + R.name + ".pgm" && !gA.Cache() && gD.Cache();
+      if (!ok) c.viol("format:C20/header-inspectors-not-as-written", cls, J(R.j()).b("standard_header", R.stdhdr).str("Description", gA.Description()).str("DateTime", gA.DateTime()).f("MaxError", gA.MaxError()).f("RMSError", gA.RMSError()));
+    }
     if (!run_ops(c, gA, opsA, Q, R, cubic, -1, XA, "A:history")) return;
     // B: a fresh object for every query, no cache
     XB.val.assign(Q.size(), 0); XB.lab.assign(Q.size(), L_FRESH);
@@ -506,7 +516,7 @@ static void run_history_case(Ctx& c, uint64_t) {
       for (int a = 1; a < 6; ++a)
         if (!same(XA.val[k], X[a]->val[k]))
           c.viol(std::string("history:C20/") + ip + "/" + WHO[a] + "-differs-from-history-object", q.mode,
-                 J(R.j()).i("query", (long long)k).str("lat", hexd(q.lat)).str("lon", hexd(q.lon)).f("lat_dec", q.lat).f("lon_dec", q.lon).i("kind", q.kind).str("h", hexd(q.hh))
+                 J(R.j()).i("query", (long long)k).str("lat", hexd(q.lat)).str("lon", hexd(q.lon)).f("lat_dec", q.lat).f("lon_dec", q.lon).i("kind", q.kind).str("hgt", hexd(q.hh))
                    .str("A", hexd(XA.val[k])).str("other", hexd(X[a]->val[k])).f("A_dec", XA.val[k]).f("other_dec", X[a]->val[k])
                    .str("path_A", LABEL_NAME[XA.lab[k]]).str("path_other", LABEL_NAME[X[a]->lab[k]]).str("ops_before", ops_context(opsA, Q, (int)k)));
       for (int a = 0; a < 6; ++a) for (int b = a + 1; b < 6; ++b) { int la = X[a]->lab[k], lb = X[b]->lab[k]; if (la > lb) std::swap(la, lb); ++pair[la][lb]; }
@@ -696,10 +706,11 @@ static void run_struct_case(Ctx& c, uint64_t idx) {
         // model: the value at the pole is one number per CELL (no x dependence inside a cell); across cells it may differ (small discontinuities)
         int ix, iy; G.cell(lat, lon, ix, iy); double lon2 = G.lon_of(ix + g.uniform(0.01, 0.99)); int jx, jy; G.cell(lat, lon2, jx, jy); if (jx != ix) continue;
         double h2 = (*gc)(lat, lon2); (void)h0;
-        OracleOut o = oracle_judge(RG, true, lat, lon, h);
+        OracleOut o = oracle_judge(RG, true, lat, lon, h), o2 = oracle_judge(RG, true, lat, lon2, h2);
+        if (o2.bound > o.bound) o.bound = o2.bound;        // the round-off bound depends on where in the cell the cubic is evaluated
         double d = ratio0(std::fabs(h - h2), (double)(2 * o.bound)); worst = std::max(worst, d);
         c.count("cubic-pole-independent-of-longitude", vh::hmix(vh::hmix(R.hash(), lat), lon));
-        if (!(d <= 1)) c.viol("law:C20/cubic/pole-value-depends-on-longitude-within-cell", cls, J(W).f("lat", lat).str("lon", hexd(lon)).str("lon2", hexd(lon2)).f("h", h).f("h2", h2).f("bound", (double)o.bound)); }
+        if (!(d <= 1)) c.viol("law:C20/cubic/pole-value-depends-on-longitude-within-cell", cls, J(W).f("lat", lat).str("lon", hexd(lon)).str("lon2", hexd(lon2)).f("h1", h).f("h2", h2).f("bound", (double)o.bound)); }
       c.obs("cubic pole value: variation within a cell / bound", worst);
     }
   } catch (const GeographicErr& e) {
@@ -820,9 +831,20 @@ static void run_nofile_case(Ctx& c, uint64_t idx) {
   if (idx == 0) { label = "no-such-file"; o = try_load(c, "c20_does_not_exist", true, false, nullptr, label, what); }
   else if (idx == 1) { label = "directory-instead-of-file"; g_dir->make_directory_instead("c20_isdir"); o = try_load(c, "c20_isdir", false, true, nullptr, label, what); g_dir->remove_directory("c20_isdir"); }
   else if (idx == 2) { label = "empty-name"; o = try_load(c, "", true, false, nullptr, label, what); }
+  else if (idx == 4 || idx == 5) {   // default path from the environment (documented DefaultGeoidPath)
+    label = idx == 4 ? "env-GEOGRAPHICLIB_GEOID_PATH" : "env-GEOGRAPHICLIB_DATA";
+    refgeoid::Raster b = base_raster(3); std::string sub = g_dir->path();
+    if (idx == 5) { sub += "/geoids"; ::mkdir(sub.c_str(), 0700); }
+    std::string f = sub + "/c20_env.pgm"; { FILE* fp = std::fopen(f.c_str(), "wb"); std::string by = refgeoid::serialize(b); std::fwrite(by.data(), 1, by.size(), fp); std::fclose(fp); }
+    unsetenv("GEOGRAPHICLIB_GEOID_PATH"); unsetenv("GEOGRAPHICLIB_DATA");
+    setenv(idx == 4 ? "GEOGRAPHICLIB_GEOID_PATH" : "GEOGRAPHICLIB_DATA", g_dir->path().c_str(), 1);
+    try { Geoid g1("c20_env"), g2("c20_env", sub, true); o = same(g1(12.5, 33.25), g2(12.5, 33.25)) && Geoid::DefaultGeoidPath() == sub ? O_GEOERR : O_ACCEPTED; what = Geoid::DefaultGeoidPath(); }
+    catch (const std::exception& e) { what = e.what(); o = O_FOREIGN; }
+    unsetenv("GEOGRAPHICLIB_GEOID_PATH"); unsetenv("GEOGRAPHICLIB_DATA"); ::unlink(f.c_str()); if (idx == 5) ::rmdir(sub.c_str());
+  }
   else { label = "no-such-directory"; try { Geoid g("x", "/nonexistent/dir/c20"); o = O_ACCEPTED; } catch (const GeographicErr&) { o = O_GEOERR; } catch (...) { o = O_FOREIGN; } }
   c.count("malformed/not-a-file", idx, false);
-  if (o != O_GEOERR) c.viol("format:C20/not-a-file/" + label, "malformed/not-a-file", J().str("what", what).i("outcome", o));
+  if (o != O_GEOERR) c.viol(std::string(idx == 4 || idx == 5 ? "format:C20/default-path/" : "format:C20/not-a-file/") + label, "malformed/not-a-file", J().str("what", what).i("outcome", o));
 }
 
 // ------------------------------------------------------------------------------------ file disappears under a live object
@@ -923,6 +945,6 @@ int main(int argc, char** argv) {
   S.push_back(Section{"trunc", trunc_tab().total, trunc_tab().total, false, run_trunc_case, 30});
   S.push_back(Section{"fault", fault_tab().F.size(), fault_tab().F.size(), false, run_fault_case, 30});
   S.push_back(Section{"headerfuzz", 1600, 32000, true, run_headerfuzz_case, 30});
-  S.push_back(Section{"nofile", 4, 4, false, run_nofile_case, 30});
+  S.push_back(Section{"nofile", 6, 6, false, run_nofile_case, 30});
   return vh::run_sections(argc, argv, S);
 }
